@@ -19,7 +19,7 @@ STORE = HERE / "c13_c14_shapes.json"
 # property -> [(file, qualified name inside the file, what transcribes it)]
 TRANSCRIBED = {
     "C13": [
-        ("tensordict/_td.py", "_set_tensor_dict", "C13Module.setTensorNative / C13Inplace.inplaceWrite"),
+        ("tensordict/_td.py", "_set_tensor_dict", "C13Module.setTensorNative (incl. the lazy-parameter pre-hook) / C13Inplace.inplaceWrite"),
         ("tensordict/_td.py", "TensorDict._to_module", "C13Module.swapEntriesWith / setTensorCustom / C13Inplace.visit"),
         ("tensordict/_td.py", "TensorDict._from_module", "C13Module.fromModule / fromKids"),
         ("tensordict/_td.py", "TensorDict.from_module", "C13Module.fromModule"),
@@ -47,6 +47,8 @@ TRANSCRIBED = {
         ("tensordict/nn/probabilistic.py", "ProbabilisticTensorDictModule._dist_sample", "C14Prob.distSample"),
         ("tensordict/nn/probabilistic.py", "ProbabilisticTensorDictModule.forward", "C14Prob.moduleLogProbShape"),
         ("tensordict/nn/distributions/composite.py", "CompositeDistribution.log_prob", "C14Prob.compositeLogProbShape"),
+        ("tensordict/nn/distributions/composite.py", "CompositeDistribution.log_prob_composite", "C14Prob.perHeadShapes"),
+        ("tensordict/base.py", "TensorDictBase.update", "C14Seq.updKeys / updAliases"),
     ],
 }
 
